@@ -634,9 +634,19 @@ def _analyze_simple_command(
             if token in with_arg:
                 j += 2
                 continue
+            if token.startswith("--") and "=" not in token:
+                # unique abbreviation of a long option with an argument: --sig KILL
+                if any(f.startswith(token) for f in with_arg if f.startswith("--")):
+                    j += 1
+                j += 1
+                continue
             if token.startswith("-") and len(token) > 1:
-                # short cluster ending in an option with an argument: -vk 5
-                if not token.startswith("--") and "-" + token[-1] in with_arg:
+                # short cluster: the first option with an argument takes the rest
+                # of the word (-ofile) or, as the last letter, the next word (-vk 5)
+                k = 1
+                while k < len(token) and "-" + token[k] not in with_arg:
+                    k += 1
+                if not token.startswith("--") and k == len(token) - 1:
                     j += 1
                 j += 1
                 continue
